@@ -505,6 +505,7 @@ func runC02(h *H) {
 	}
 	runC02Any(h)   // c02any.go: whole documents into `var x any`
 	runC02Typed(h) // c02typed.go: typed targets with prior content
+	genCodecChoiceDec(h) // c01codecdec.go: which decoder a type gets (Unmarshaler detection, null handling)
 }
 
 // nullAt replaces the k-th (mod count) scalar or string VALUE of the document (not a key) by null.
